@@ -241,6 +241,34 @@ func c17() []scenario {
 			l.RecordRequest("a", req(1))
 			parallel(func() { l.Reset() }, func() { l.RecordResponse("a", res(1)) }, func() { l.RecordRequest("b", req(2)) }, func() { l.ExportAndReset() })
 		}},
+		{"c17: export during recording", func() {
+			// one goroutine records requests with increasing ids, another exports all the while: every export is a
+			// prefix of the arrival order (asserted directly; the unsynchronised accesses are the race detector's)
+			l := har.NewLogger()
+			const n = 300
+			done := make(chan struct{})
+			parallel(func() {
+				for i := 0; i < n; i++ {
+					l.RecordRequest(fmt.Sprintf("id%04d", i), req(i))
+				}
+				close(done)
+			}, func() {
+				for {
+					h := l.Export()
+					for k, e := range h.Log.Entries {
+						if e == nil || e.ID != fmt.Sprintf("id%04d", k) {
+							fmt.Fprintf(os.Stderr, "RACEBODY VIOLATION harlog:export_not_a_prefix_of_arrival_order entry %d of %d\n", k, len(h.Log.Entries))
+							break
+						}
+					}
+					select {
+					case <-done:
+						return
+					default:
+					}
+				}
+			})
+		}},
 		{"c17: export json vs response", func() {
 			l := har.NewLogger()
 			l.RecordRequest("a", req(1))
